@@ -7,6 +7,13 @@ open Afkak.Consumer Afkak.Monitor Afkak.Consts
 
 variable [EnvHyp]
 
+/-- a commit result is never ConsumerFetchSizeTooSmall -/
+def DRes.nts (r : DRes) : Prop := ∀ f, r = .err f → f ≠ .tooSmall
+
+theorem nts_ok (v : Option Int) : DRes.nts (.ok v) := fun _ h => by cases h
+theorem nts_err {f : Fail} (hf : f ≠ .tooSmall) : DRes.nts (.err f) := fun _ h => by cases h; exact hf
+
+
 /-- The re-entrant API one level down preserves the invariant. -/
 structure OpsPres (cfg : Cfg) (inner : Ops) : Prop where
   stop : Pres cfg inner.stop
@@ -74,42 +81,43 @@ theorem shutdownSuccess_pres : Pres cfg (shutdownSuccess cfg inner) := by
   · exact (commitAndStop_pres hin).step (Good.refl hs)
   · exact (shutdownFinish_pres hin none).step (Good.refl hs)
 
-theorem fireWaiter_pres (r : DRes) (w : Waiter) : Pres cfg (fun s => fireWaiter cfg inner r s w) := by
+theorem fireWaiter_pres (r : DRes) (hr : DRes.nts r) (w : Waiter) : Pres cfg (fun s => fireWaiter cfg inner r s w) := by
   intro s hs
   have hx := Good.refl hs
   cases w <;> cases r <;> simp only [fireWaiter]
   all_goals first
     | exact hx
-    | exact (handleAutoCommitError_pres cfg _).step hx
+    | exact (handleAutoCommitError_pres cfg _ (hr _ rfl)).step hx
     | exact (autoCommit_pres cfg _).step hx
     | exact (shutdownSuccess_pres hin).step hx
     | exact (shutdownFinish_pres hin _).step hx
     | exact (commitAndStop_pres hin).step hx
     | leaf hx
 
-theorem waiters_good (r : DRes) (ws : List Waiter) : ∀ {s0 s : St}, Good cfg s0 s →
+theorem waiters_good (r : DRes) (hr : DRes.nts r) (ws : List Waiter) : ∀ {s0 s : St}, Good cfg s0 s →
     Good cfg s0 (ws.foldl (fireWaiter cfg inner r) s) := by
   induction ws with
   | nil => intro s0 s h; exact h
   | cons w ws ih =>
     intro s0 s h
     simp only [List.foldl_cons]
-    exact ih ((fireWaiter_pres hin r w).step h)
+    exact ih ((fireWaiter_pres hin r hr w).step h)
 
-theorem deliver_pres (r : DRes) : Pres cfg (deliver cfg inner r) := by
+theorem deliver_pres (r : DRes) (hr : DRes.nts r) : Pres cfg (deliver cfg inner r) := by
   intro s hs
   have hx := Good.refl hs
   unfold deliver
   simp only []
-  exact waiters_good hin r _ (by leaf hx)
+  exact waiters_good hin r hr _ (by leaf hx)
 
-theorem handleCommitError_pres (f : Fail) (d : Rat) (a : Nat) : Pres cfg (handleCommitError cfg inner f d a) := by
+theorem handleCommitError_pres (f : Fail) (hf : f ≠ .tooSmall) (d : Rat) (a : Nat) : Pres cfg (handleCommitError cfg inner f d a) := by
   intro s hs
   have hx := Good.refl hs
   unfold handleCommitError
   repeat' split
   all_goals first
-    | exact (deliver_pres hin _).step hx
+    | exact (deliver_pres hin _ (nts_ok _)).step hx
+    | exact (deliver_pres hin _ (nts_err hf)).step hx
     | (simp only []; leaf hx)
 
 theorem cancelWaiters_pres : ∀ (fuel : Nat), Pres cfg (cancelWaiters cfg inner fuel) := by
@@ -128,7 +136,7 @@ theorem cancelWaiters_pres : ∀ (fuel : Nat), Pres cfg (cancelWaiters cfg inner
     split
     · exact hx
     · simp only []
-      exact (ih).step ((fireWaiter_pres hin _ _).step (by leaf hx))
+      exact (ih).step ((fireWaiter_pres hin _ (nts_err (by intro h; cases h)) _).step (by leaf hx))
 
 end
 
